@@ -62,6 +62,15 @@ CLAIMED = {
    note="No kernel FUSE mount is possible in the sandbox: the node's handle read function is called directly. Well-formed indexes assumed.",
    technique="TLA+ spec (property oracle + implementation-shaped model) checked by TLC; trace validation of recorded calls",
    design="4/C09"),
+ "C10": dict(
+   text="SparseFile.tla states the property as an oracle (ReadAtOK with the minimal history of surely/possibly loaded chunks) and models the "
+        "loader structurally (need set, load, cache write, done bit, save-state, restart, lost cache); TLC checks the model against the oracle for "
+        "all small indexes, reads and failure patterns. The real SparseFile is driven through handles and the mount node with failing-ID "
+        "changes, save-state, restarts with matching/lost/resized cache files and pre-load, and concurrent readers under a gate scheduler "
+        "(gates at the store call, before the cache write, before the done bit); every result is judged by the oracle.",
+   note="One deviation of the unchanged code is recorded as known finding F17-stale-state and reported as such; errors are accepted whenever the store is failing.",
+   technique="TLA+ spec (property oracle + implementation-shaped model) checked by TLC; trace validation incl. scheduled concurrent readers",
+   design="4/C10"),
 }
 
 NOT_YET = "check not built yet in this round (planned in DESIGN.md section 4)"
